@@ -131,6 +131,27 @@ def job_eacces(res, rng, sc, w, job):
         finally:
             for d in blocked:
                 os.chmod(d.abs, 0o755)
+    # the unlistable directory is itself one of the search roots
+    top = [d for d in dirs if "/" not in d.rel]
+    if len(top) >= 2:
+        bad, good = top[0], top[1]
+        os.chmod(bad.abs, 0)
+        try:
+            for q in ("path from t/%s, t/%s into list" % (bad.rel, good.rel), "path from t/%s, t/%s into list" % (good.rel, bad.rel),
+                      "path from t/%s dfs into list" % bad.rel):
+                r = runner.run([q.replace("t/%s" % bad.rel, "'t/%s'" % bad.rel).replace("t/%s" % good.rel, "'t/%s'" % good.rel)], cwd=w, home=home, uid=NOBODY)
+                res.ev()
+                ctx = {"query": q, "unlistable_root": bad.rel, "result": r.brief()}
+                if not judge_basic(res, r, q, ctx):
+                    continue
+                want = sorted("t/" + e.rel for e in snap if inside(e.rel, good.rel)) if good.rel in q else []
+                if r.rc != 1 or ("t/" + bad.rel) not in r.err.decode("utf-8", "replace") or sorted(r.rows()) != want:
+                    res.viol("unlistable search root t/%s: status %s, stderr %r, %d rows (expected status 1, the root named, %d rows of the other root)" % (
+                        bad.rel, r.rc, r.err[:120], len(r.rows()), len(want)), ctx)
+                    continue
+                res.cover("eacces_paths", "unlistable-root")
+        finally:
+            os.chmod(bad.abs, 0o755)
     # unreadable files: only content-derived cells change
     if files:
         victims = rng.sample(files, min(3, len(files)))
@@ -483,7 +504,7 @@ def main(chk):
         assumptions=["strace -e inject returns the error without running the syscall; EPIPE is delivered without SIGPIPE exactly as in the real "
                      "binary, which ignores SIGPIPE", "uid 65534 has no access to directories with mode 000",
                      "rows inside a failing directory may be any subset of the fault-free rows"],
-        require={"eacces_paths": 5, "fault_sites": 8, "stdout_fault_cells": 24, "real_pipe_closures": 60, "blocked_directory_sets": 20},
+        require={"eacces_paths": 6, "fault_sites": 8, "stdout_fault_cells": 24, "real_pipe_closures": 60, "blocked_directory_sets": 20},
         exhaustive={"stdout_write_indices": "all, per format x result path", "directory_syscalls": "every getdents64 / openat(O_DIRECTORY) of the traced run",
                     "blocked_directories": "every single directory of each tree"},
     )
